@@ -105,7 +105,10 @@ def byte_search(ctx, ops, verdict_classes):
             if rep is None:
                 raise ToolError("replayer failed rc=%s: %s" % (rc, err[-2000:]))
             C.absorb_report(ctx, rep, verdict_classes, "%s@%s" % (tag, force))
-    ctx.evaluations = sum(v for k, v in ctx.counters.items() if k.endswith("real_exec") or k.endswith("scaled_exec"))
+    executed = []
+    miri_vehicles(ctx, [gvec, svec], verdict_classes, executed)
+    ctx.counters_note = executed
+    ctx.evaluations = sum(v for k, v in ctx.counters.items() if k.endswith("real_exec") or k.endswith("scaled_exec") or k.endswith("miri_exec"))
 
 
 RULE_BYTES = ("TLC enumerates every (length, start alignment, match placement) of the L-models within the constants listed under tlc_runs; "
@@ -402,7 +405,8 @@ def c11(ctx):
     ctx.nontrivial += sum(1 for v in C.read_vectors(pvec) if v["find"] >= 0)
     replay_cmd(ctx, binp, "replay-pp", pvec, "pp", {"result", "panic"})
     mm_replay(ctx, binp, vec, "blocks", {"result", "panic"}, 5 if ctx.quick else 10, forces=("avx2",))
-    ctx.evaluations += sum_exec(ctx, ["pp_scaled_exec", "pp_real_exec", "prefilter_exec"])
+    miri_vehicles(ctx, [vec], {"result", "panic"}, [])
+    ctx.evaluations += sum_exec(ctx, ["pp_scaled_exec", "pp_real_exec", "prefilter_exec", "miri_exec"])
     return C.finish(ctx, "model_checking",
                     "MC_PackedPair: all needles x every ordered pair of distinct offsets x all haystack contents for every length 0..minLen+Extra, both mask kinds "
                     "(the NEON under-masking is modelled as the code has it); invariants prefilter <= FindSub, None => absent, candidate has both pair bytes, "
@@ -506,6 +510,7 @@ def c05(ctx):
     # hooked loads of the real generic code at the model widths (vector part) and of the scaled packed-pair code
     replay_cmd(ctx, binp, "replay-generic", gvec, "generic_loads", classes, extra=["--variants", 1, "--stretches", 2])
     replay_cmd(ctx, binp, "replay-pp", pvec, "pp_loads", classes)
+    miri_vehicles(ctx, [bvec, mvec], classes, [])     # Miri memory-access errors (out-of-bounds / misaligned) on foreign targets
     ctx.evaluations += sum_exec(ctx, ["guard_exec", "iseq_exec", "real_exec", "scaled_exec", "pp_scaled_exec", "pp_real_exec"])
     return C.finish(ctx, "model_checking",
                     "model: LoadsOK / aligned-loads-aligned are invariants of every L-model with raw loads (GenericMemchr find/rfind/count, Swar, PackedPair find/find_prefilter, IsEqual) "
@@ -547,6 +552,7 @@ def c14(ctx):
     replay_cmd(ctx, binp, "replay-pair", rvec, "pair", classes)
     replay_cmd(ctx, binp, "replay-iseq", res["ie"]["vec_path"], "iseq", classes)
     mm_replay(ctx, binp, mvec, "all", classes, 4 if q else 8)
+    miri_vehicles(ctx, [gvec, svec, mvec], classes, [])
     ctx.evaluations += sum_exec(ctx, ["_exec"])
     return C.finish(ctx, "model_checking",
                     "model: every L-model carries an explicit `bad`/`panic` flag for index arithmetic that would underflow, slice indices out of range and failed (debug_)assertions; "
